@@ -618,9 +618,10 @@ def build_seeds(ck, S, g, seeds_dir, exe_rel, exe_fuzz):
 # (a) libFuzzer runs
 
 class FuzzSlot(threading.Thread):
-  def __init__(self, exe, slot, seed, seconds, dirs, dictionary):
+  def __init__(self, exe, slot, seed, seconds, dirs, dictionary, asan=True):
     threading.Thread.__init__(self, daemon=True)
     self.exe, self.slot, self.seed, self.seconds, self.dirs, self.dictionary = exe, slot, seed, seconds, dirs, dictionary
+    self.asan = asan      # False: libFuzzer linked against the uninstrumented rel library (blind mutation, ~100x faster)
     self.runs = []     # (iteration, returncode, logpath)
     self.proc = None
     self.error = None
@@ -632,13 +633,14 @@ class FuzzSlot(threading.Thread):
       while time.time() < deadline - 4 and it < 40:
         remaining = max(3, int(deadline - time.time()))
         log = os.path.join(self.dirs['logs'], 's%d_%d.log' % (self.slot, it))
-        cmd = [self.exe, self.dirs['corpus'], self.dirs['seeds'], '-max_total_time=%d' % remaining,
+        cmd = [self.exe, self.dirs['corpus' if self.asan else 'corpus_rel'], self.dirs['seeds'], '-max_total_time=%d' % remaining,
                '-seed=%d' % ((self.seed * 1000 + self.slot * 100 + it) % (2 ** 31) + 1), '-dict=' + self.dictionary,
                '-max_len=%d' % MAX_LEN, '-timeout=20', '-rss_limit_mb=3072', '-malloc_limit_mb=2048',
                '-artifact_prefix=%s/s%d_%d_' % (self.dirs['artifacts'], self.slot, it), '-print_final_stats=1',
                '-reload=1', '-len_control=50', '-use_value_profile=0']
-        env = asan_env()
+        env = asan_env() if self.asan else dict(os.environ)
         env['VF_C37_DIR'] = WD
+        env['VF_C37_TAG'] = 'asan' if self.asan else 'rel'
         with open(log, 'wb') as lf:
           self.proc = subprocess.Popen(cmd, stdin=subprocess.DEVNULL, stdout=lf, stderr=subprocess.STDOUT, env=env, cwd=WD)
           try:
@@ -669,16 +671,19 @@ class FuzzSlot(threading.Thread):
 
 def read_fuzz_stats():
   tot = collections.Counter()
+  per = {}
   for f in glob.glob(os.path.join(WD, 'stats', '*.txt')):
+    tag = os.path.basename(f).split('_')[0]
     for line in open(f):
       k, v = line.split()
       tot[k] += int(v)
+      per.setdefault(tag, collections.Counter())[k] += int(v)
   hashes = set()
   for f in glob.glob(os.path.join(WD, 'stats', '*.hashes')):
     data = open(f, 'rb').read()
     for i in range(0, len(data) - 7, 8):
       hashes.add(data[i:i + 8])
-  return tot, hashes
+  return tot, hashes, {k: dict(v) for k, v in per.items()}
 
 
 def show(data, n=600):
@@ -755,7 +760,7 @@ def main(ck):
   verify_phrases(vb.REPO)
   if os.path.isdir(WD):
     shutil.rmtree(WD, ignore_errors=True)
-  dirs = {k: os.path.join(WD, k) for k in ('seeds', 'corpus', 'artifacts', 'logs', 'stats', 'escapes')}
+  dirs = {k: os.path.join(WD, k) for k in ('seeds', 'corpus', 'corpus_rel', 'artifacts', 'logs', 'stats', 'escapes')}
   for d in dirs.values():
     os.makedirs(d, exist_ok=True)
   exe_fuzz = vb.build_exe('fuzz_xml', [SRC], variant='fuzz', extra_ldflags=['-fsanitize=fuzzer', '-rdynamic'])
@@ -775,7 +780,13 @@ def main(ck):
   if 'a' not in parts:
     nslots = 0
   fuzz_seconds = ck.budget(38, 600)
-  slots = [FuzzSlot(exe_fuzz, i, ck.seed, fuzz_seconds, dirs, os.path.join(WD, 'mjcf.dict')) for i in range(nslots)]
+  # half of the fuzzer processes use the ASan + coverage build (guided, finds memory errors, a few executions per second on
+  # this machine), the other half the rel library without instrumentation (blind mutation of the same seeds, hundreds of
+  # executions per second; its crashes are re-run under ASan for the report)
+  exe_blind = vb.build_exe('fuzz_xml_rel', [SRC], variant='rel', extra_cflags=['-g', '-fsanitize=fuzzer'],
+                           extra_ldflags=['-fsanitize=fuzzer', '-rdynamic'])
+  slots = [FuzzSlot(exe_fuzz if i % 2 == 0 else exe_blind, i, ck.seed, fuzz_seconds, dirs, os.path.join(WD, 'mjcf.dict'),
+                    asan=(i % 2 == 0)) for i in range(nslots)]
   for s in slots:
     s.start()
 
@@ -933,6 +944,11 @@ def part_b(ck, S, g, exe_rel, exe_fuzz):
     if lay == 'semantic':
       return None
     msg, el = norm_msg(rb.perr)
+    if el == 'numeric' and "'data' has too much data" in msg:
+      # documented value-dependent rule, not a schema reason (XMLreference custom-numeric-data: "If size is specified, the
+      # length of the array given here cannot exceed the specified size"); the reader words it with the arity phrase
+      labels[-1] = 'b:conf:rejected-semantic'
+      return None
     fp = 'conforming-rejected:%s@%s' % (re.sub(r'\d+', 'N', msg)[:90], el)
     rep_doc = doc
     if ck.known(fp) is None and fp not in S.findings and S.minimized < 12:
@@ -1128,12 +1144,14 @@ def part_b(ck, S, g, exe_rel, exe_fuzz):
 
 
 def part_a_collect(ck, S, slots, exe_fuzz):
-  tot, hashes = read_fuzz_stats()
+  tot, hashes, per = read_fuzz_stats()
   execs = tot.get('execs', 0)
   ck.extra['fuzz'] = dict(tot)
+  ck.extra['fuzz']['per_build'] = per
   ck.extra['fuzz']['distinct_inputs_reaching_reader'] = len(hashes)
   ck.extra['fuzz']['processes'] = sum(len(s.runs) for s in slots)
   ck.extra['fuzz']['corpus_files'] = len(os.listdir(os.path.join(WD, 'corpus')))
+  ck.extra['fuzz']['slots'] = ['asan+coverage' if s.asan else 'rel-blind' for s in slots]
   ck.evaluations += execs
   ck.nontrivial.update('fz' + h.hex() for h in hashes)
   ck.labels['a:execs'] += execs
@@ -1169,6 +1187,7 @@ def part_a_collect(ck, S, slots, exe_fuzz):
       handle_common(S, r, data, 'fuzz')
   # terminations of fuzzer processes
   nterm = collections.Counter()
+  rerun = [None]
   for s in slots:
     for it, rc, log in s.runs:
       text = open(log, errors='replace').read()
@@ -1176,8 +1195,18 @@ def part_a_collect(ck, S, slots, exe_fuzz):
         nterm['finished'] += 1
         continue
       c = classify_report(text)
-      arts = sorted(glob.glob('%s/s%d_%d_*' % (os.path.join(WD, 'artifacts'), s.slot, it)))
+      arts = sorted(a for a in glob.glob('%s/s%d_%d_*' % (os.path.join(WD, 'artifacts'), s.slot, it)) if 'slow-unit' not in a)
       data = open(arts[0], 'rb').read() if arts else b''
+      if not s.asan and c['where'] not in ('inconclusive',) and c['kind'] != 'oracle' and arts:
+        # blind (rel) fuzzer: no sanitizer report; the artifact is re-run under ASan
+        if rerun[0] is None:
+          rerun[0] = Worker(exe_fuzz, True, WD, spares=0)
+        r2 = rerun[0].run(data, load=True, timeout=200)
+        nterm['rel-crash-rerun'] += 1
+        if handle_common(S, r2, data, 'fuzz/rel') is False:
+          S.finding('rel-crash-unreproduced:fuzz', 'the rel build died under the fuzzer on an input that the ASan build handles: %s' % text[-400:],
+                    dict(origin='fuzz/rel', xml=show(data), artifact=arts[:1]))
+        continue
       if c['where'] == 'inconclusive':
         S.inconclusive[c['kind']] += 1
         nterm[c['kind']] += 1
@@ -1196,6 +1225,8 @@ def part_a_collect(ck, S, slots, exe_fuzz):
         continue
       S.finding(c['fingerprint'], 'loader crashed under the fuzzer: %s' % c['summary'],
                 dict(origin='fuzz', xml=show(data), artifact=arts[:1], frames=c['frames'][:8], report=c['text'][c['text'].find('ERROR:'):][:4000]))
+  if rerun[0] is not None:
+    rerun[0].stop()
   ck.extra['fuzz']['process_endings'] = dict(nterm)
   # (the machine is shared and the ASan build is slow: the thresholds only catch a fuzzer that did not run at all)
   if execs < 10:
